@@ -314,6 +314,8 @@ def judge(ctx, case, obs) -> None:
                 elif pure and entries[0][1] != len(b):
                     ctx.fail("C42:counter-value", inp, f"run of {len(b)} '{'on' if s_last else 'off'}' telegrams at {[e[0] for e in b]} (timeout {T}/64 s) closed at t={tt}/64 s with counter {entries[0][1]}")
             for C, (b, tie, pure) in sorted(closes.items()):
+                if C not in by_time and tie:
+                    ctx.notes["context_report_preempted_at_exact_tie"] = ctx.notes.get("context_report_preempted_at_exact_tie", 0) + 1
                 if C not in by_time and not tie:
                     ctx.fail("C42:counter-report-missing", inp, f"context of telegrams at {[e[0] for e in b]} never reported (expected at t={C}/64 s); callbacks at {sorted(by_time, key=float)}")
             # counter attribute at settled samples
